@@ -112,7 +112,11 @@ ATOMS = [".", ".", ".[]", ".[]?", ".a", ".a?", ".[0]", "1", '"x"', "null", "fals
          "[limit(3; repeat(1))]", "path(..)", "to_entries", "tojson|fromjson", "ascii_downcase", "implode", "error(\"\\u0000\")",
          "debug", "stderr", ".[]? | debug", "debug | error", "(1,2) | stderr", "debug(\"m\")", "[.] | debug | .[0]", "stderr | halt_error",
          "halt_error(1.5)", "halt_error(\"x\")", "halt_error(null)", "error(error)", "try halt catch .", "try halt_error catch .",
-         "@base64", "ltrimstr(\"a\")", "splits(\"a\")", "utf8bytelength", "halt_error(0)", "halt_error(256)", "[.]|halt_error(2)"]
+         "@base64", "ltrimstr(\"a\")", "splits(\"a\")", "utf8bytelength", "halt_error(0)", "halt_error(256)", "[.]|halt_error(2)",
+         # computed floats at every boundary of the number rendering (the command has its own copy of the encoder): format thresholds, integers beyond 2^53, tiny, huge, negative zero
+         "1/1000000", "-1/1000000", "[1/1000000, 1e21+0, 1e-7*1, 1e20*10]", "1e21 + 0", "1e20 * 10 | ., -(.)", "1e-7 * 1", "1e-5 / 10", "0.1 + 0.2", "1e15 + 0.5", "9007199254740993 + 0.5", "{a: (1/1000000), b: [1e21 + 0]}",
+         "1e300 * 1e10", "-1e300 * 1e10", "5e-324 * 1", "1.7976931348623157e308 + 0", "-0.0 * 1", "[.[]? | numbers | . / 1000000]", "100000000000000000000 * 10 + 0.0", "3.0 + 0", "1e6 / 1e12", "1e-6 + 0", "1e-6 * 1.0000000000000002",
+         "1e21 - 65536", "[limit(3; 1e21 * (1, 0.9999999999999999, 1.0000000000000002))]", "(1e-6, 9.999999999999999e-7, 1.0000000000000002e-6) + 0"]
 
 
 def gen_query(r):
